@@ -11,7 +11,6 @@ Nothing here imports cobra: the truth value of a rule with a set of genes absent
 never through cobra's parser or GPR.eval.
 """
 import itertools
-import random
 
 
 def compositions(n, k_min=2):
